@@ -17,6 +17,8 @@ SHAPES = {
     # composite bundle fields that can be partially valid, and windows below a dictionary
     "TSBL": ("TSB", (("a", TSI), ("l", ("TSL", TSI, 2)))), "TSBB": ("TSB", (("a", TSI), ("q", B2))),
     "TSDW": ("TSD", "int", ("TSW", 3, 2)),
+    "TSDBS": ("TSD", "int", ("TSB", (("a", TSI), ("s", TSSI)))), "TSLB": ("TSL", B2, 2),
+    "TSBW": ("TSB", (("a", TSI), ("w", ("TSW", 3, 2)))),
 }
 TYPED = ("TS", "TSS", "TSD", "TSL", "TSB", "TSW")
 
@@ -104,10 +106,16 @@ def is_valid(shape, state):
         return state is not None and len(state) >= shape[2]      # a tick-count window is valid once its minimum count is reached
     if k in ("TS", "SIGNAL", "TSS", "TSD"):
         return state is not None
+    # a fixed-shape parent is valid from the first write to any of its children (a window child that was pushed to but is
+    # still below its minimum count has been written although it is not valid itself)
     if k == "TSL":
-        return any(is_valid(shape[1], c) for c in state)
+        return any(was_written(shape[1], c) for c in state)
     if k == "TSB":
-        return any(is_valid(s, state[f]) for f, s in shape[1])
+        return any(was_written(s, state[f]) for f, s in shape[1])
+
+
+def was_written(shape, state):
+    return state is not None if shape[0] == "TSW" else is_valid(shape, state)
 
 
 def gen_delta(shape, state, rng, depth=0):
